@@ -18,8 +18,8 @@ DRIVERS = ["drv_reg"]
 DRIVER_EXE = "drv_reg"
 RULE = ("interleavings of registrations (accepted and rejected), read-only operations (CheckCategoryUnit, Scalar "
         "creation with unit+category / unit only / category only, Convert, IsValid, object-level GetValidUnits, +, "
-        "the registry getters) and failing lookups on a private UnitDatabase(): bounded-exhaustive over a 20-operation "
-        "alphabet after a 2-call prefix to depth 3 (quick) / 4 (thorough), random interleavings of <= 30 steps over "
+        "products/quotients and ObtainQuantity(OrderedDict)/CreateDerived in both composition orders, the registry getters) and failing lookups on a private UnitDatabase(): bounded-exhaustive over a 25-operation "
+        "alphabet after a 2-, 4- or 5-call prefix to depth 3 (quick) / 4 (thorough), random interleavings of <= 30 steps over "
         "the name pools of C14; every step's outcome and registry-changed flag and the final memo tables are "
         "compared; distinct = distinct history; non-trivial = a query follows a registration that follows a query")
 EXHAUSTIVE = {"quick": False, "thorough": False}
@@ -48,6 +48,12 @@ ALPHABET = [
     dict(q="convert", cq="depth", u="cm", v="m", x=250.0),
     dict(q="add", c1="depth", u1="cm", c2="length", u2="m", x=1.5, y=2.0),
     dict(q="create", c="length", u="s"),
+    # the same composition in both orders (the derived cache key keeps the order of the request)
+    dict(q="mul", c1="depth", u1="m", c2="length", u2="m", x=2.0, y=3.0),
+    dict(q="mul", c1="length", u1="m", c2="depth", u2="m", x=3.0, y=2.0),
+    dict(q="derived", ents=[["depth", "m", 1], ["length", "cm", -1]]),
+    dict(q="derived", ents=[["length", "cm", -1], ["depth", "m", 1]]),
+    dict(q="div", c1="depth", u1="cm", c2="length", u2="m", x=1.5, y=2.0),
 ]
 
 
@@ -59,6 +65,26 @@ RICH = PREFIX + [reg._unit("length", "cm"), reg._unit("length", "lbmol", dc="dep
                  reg._cat("length", "length"), reg._cat("depth", "length", min_value=0.0, max_value=10.0),
                  reg._cat("time", "time", valid_units=["min"])]
 PREFIX2 = PREFIX + [reg._unit("length", "cm"), reg._cat("depth", "length")]
+PREFIX3 = PREFIX2 + [reg._cat("length", "length")]
+
+
+def _rnd_ents(rng, cat, unit):
+    ents, seen = [], set()
+    for _ in range(rng.choice([1, 2, 2, 2, 3])):
+        c = cat()
+        if c not in seen:
+            seen.add(c)
+            ents.append([c, unit(), rng.choice([1, 1, -1, 2, -2])])
+    return ents
+
+
+def _swapped(op):
+    """the same composition asked for in the opposite order"""
+    if op.get("q") in ("mul",):
+        return dict(op, c1=op["c2"], u1=op["u2"], c2=op["c1"], u2=op["u1"], x=op["y"], y=op["x"])
+    if op.get("q") in ("derived", "createDerived"):
+        return dict(op, ents=list(reversed(op["ents"])))
+    return dict(op)
 
 
 def _rnd_query(rng, units=(), cats=(), extra=False):
@@ -88,6 +114,9 @@ def _rnd_query(rng, units=(), cats=(), extra=False):
         dict(q="objValidUnits", c=c, u=u), dict(q="objValidUnits", c=c, u=u),
         dict(q="isValid", c=c, u=u, x=rng.choice([0.0, 3.0, 700.0, -2.0])),
         dict(q="add", c1=c, u1=u, c2=cat(), u2=v, x=1.5, y=2.0),
+        dict(q=rng.choice(["mul", "div"]), c1=c, u1=u, c2=cat(), u2=v, x=1.5, y=rng.choice([2.0, 2.0, 0.0])),
+        dict(q=rng.choice(["mul", "div"]), c1=c, u1=u, c2=cat(), u2=v, x=-3.0, y=4.0),
+        dict(q=rng.choice(["derived", "createDerived"]), ents=_rnd_ents(rng, cat, unit)),
         dict(q="validUnits", c=c), dict(q="baseUnit", qt=rng.choice(types)), dict(q="units", qt=rng.choice(types)),
         dict(q="defaultCategory", u=u), dict(q="quantityType", u=u), dict(q="catInfo", c=c),
     ])
@@ -109,7 +138,8 @@ def _random(ctx, salt, n, maxlen, extra=False):
             if r < 0.3:
                 ops.append(reg._rnd_op(rng))
             elif r < 0.4 and ops:
-                ops.append(dict(ops[rng.randrange(len(ops))]))       # repeat an earlier step (memo / cache path)
+                prev = ops[rng.randrange(len(ops))]                  # repeat an earlier step (memo / cache path),
+                ops.append(_swapped(prev) if rng.random() < 0.6 else dict(prev))   # compositions also in the other order
             else:
                 ops.append(_rnd_query(rng, units, cats, extra))
         yield _history(ops, "random")
@@ -124,11 +154,12 @@ def _exhaustive(depth, prefixes=(PREFIX, PREFIX2)):
 
 def cases(ctx):
     if ctx.tier == "quick":
+        yield from _exhaustive(2, (PREFIX3,))
         yield from _exhaustive(3)
         yield from _random(ctx, "q", 500, 30)
     else:
         yield from _exhaustive(4, (PREFIX,))
-        yield from _exhaustive(3, (PREFIX2,))
+        yield from _exhaustive(3, (PREFIX2, PREFIX3))
         yield from _random(ctx, "t", 6000, 30)
 
 
